@@ -111,6 +111,23 @@ def install(ctx):
         r = yield from ip.call_closure(f, [])
         return r
 
+    @M.reg('Option::map_or_else')
+    def option_map_or_else(ip, pc, args, dt):
+        o, dflt, f = args
+        if variant_of(ip, o) == 0:
+            r = yield from ip.call_closure(dflt, [])
+            return r
+        r = yield from ip.call_closure(f, [o.payload[1][0]])
+        return r
+
+    @M.reg('Option::map_or')
+    def option_map_or(ip, pc, args, dt):
+        o, dflt, f = args
+        if variant_of(ip, o) == 0:
+            return dflt
+        r = yield from ip.call_closure(f, [o.payload[1][0]])
+        return r
+
     @M.reg('Option::or_else')
     def option_or_else(ip, pc, args, dt):
         o, f = args
